@@ -88,6 +88,7 @@ def run(ctx, prop):
     quick = ctx.tier == "quick"
     rng = random.Random(ctx.seed)
     ctx.tlc("MC_Coff", workers=10, name="mc:Coff writer (Inv_Layout, Inv_C08, Inv_C09)", timeout=1800)
+    ctx.apalache("CoffLemma", "Lemma")        # region tiling / containment for ALL sizes (MC_Coff is bounded)
     cells = gen(ctx, 2 if quick else 3)
     if not quick and len(cells) > 9000:
         small = [c for c in cells if len(c["decl"]) <= 2]
@@ -194,5 +195,6 @@ def run(ctx, prop):
            "rule": "TLC enumerates (Gen_Coff.tla) GLOBAL declaration lists of 0..%d names over 9 name classes (lengths 1,7,8,9,17,40; two names sharing an 8-byte prefix; a long name that is a prefix of another) incl. duplicates x which names are undefined x one/several GLOBAL statements x label order (declaration, reverse, aliases at one address)%s; "
                    "[FILE] names of length none/1/17/18/19/40 and .text lengths 0/1/3/4096/70000 are cycled over the cells; every object is read raw and by debug/pe and judged by TLC against WellFormed/Matches; the same source without FORMAT gives the flat image" % (2 if quick else 3, " (seeded sample)" if quick else ""),
            "model_checking": "MC_Coff: the writer state machine (placeholder header, section headers, .text, symbol records, string table, patch) satisfies WellFormed and Matches for all 59 904 bounded inputs (GLOBAL lists of <= 3 names over 5 length classes incl. duplicates and a shared prefix, any subset defined, .text 0/1/5 bytes, FILE names of 0/5/18/19 bytes)",
-           "samples": [R.cases[i]["src"] for i in (0, 2, len(R.cases) - 2)], "tlc_runs": ctx.tlc_stats[:4], "exhaustive": False}
+           "symbolic_lemma": "CoffLemma.tla (Apalache, all .text sizes <= 2^30, record counts <= 2^24, string tables <= 2^30): the consistency equations of WellFormed (items 4, 5, 6, 8) make header | section headers | .text | 18-byte records | string table tile the file exactly, every record and every NUL-terminated name with 4 <= off and off + len + 1 <= strlen lies inside its region, and growing .text moves symptr and the file length by the same amount and nothing else",
+           "samples": [R.cases[i]["src"] for i in (0, 2, len(R.cases) - 2)], "tlc_runs": ctx.tlc_stats[:5], "exhaustive": False}
     return report.finish(ctx, prop, viol, known, other, R, cov, ASSUME)
